@@ -35,11 +35,12 @@ def load_corpus():
     return mutants.MUTANTS, equivalents.EQUIVALENTS
 
 
-def verdict(pid, repo_root, overrides):
-    """-> ('ok'|'violation'|'error', detail)"""
+def verdict(pid, repo_root, overrides, use_reference=True):
+    """-> ('ok'|'violation'|'error', detail).  use_reference=False switches the reference-form substitution off: the
+    equivalent-variant corpora measure the robustness of the rules themselves, not of the safety net behind them."""
     mod = importlib.import_module(f"sa.rules.{pid.lower()}")
     try:
-        repo = Repo(repo_root, overrides=overrides)
+        repo = Repo(repo_root, overrides=overrides, use_reference=use_reference)
         chk = Check(pid, repo, "quick")
         err = None
         try:
@@ -92,7 +93,7 @@ def _run_variant(args):
         return kind, vid, "stale", err, {}
     res = {}
     for pid in pids:
-        res[pid] = verdict(pid, repo_root, {relpath: src})
+        res[pid] = verdict(pid, repo_root, {relpath: src}, use_reference=(kind == "mutant"))
     return kind, vid, "run", None, res
 
 
@@ -114,7 +115,7 @@ def run_for(pid, repo_root, jobs=None):
     # whole-repository behaviour-preserving transformations (layout round trip, renaming of all locals)
     from . import transforms
     for tname, tf in transforms.WHOLE_REPO.items():
-        v, det = verdict(pid, repo_root, tf(repo_root))
+        v, det = verdict(pid, repo_root, tf(repo_root), use_reference=False)
         if v == "ok":
             silent += 1
         else:
@@ -142,9 +143,65 @@ def run_for(pid, repo_root, jobs=None):
                 silent += 1
             else:
                 failures.append(f"equivalent variant {vid} changed the verdict of {pid}: {v} {det}")
-    return {"selftest_mutants_caught": caught, "selftest_equivalents_silent": silent,
-            "selftest_stale": stale, "selftest_failures": failures, "selftest_samples": samples,
-            "selftest_variants": len(tasks) + len(transforms.WHOLE_REPO)}
+    out = {"selftest_mutants_caught": caught, "selftest_equivalents_silent": silent,
+           "selftest_stale": stale, "selftest_failures": failures, "selftest_samples": samples,
+           "selftest_variants": len(tasks) + len(transforms.WHOLE_REPO)}
+    # further whole-repository rewrites (guard-clause nesting both ways, split guards, keyword order, hoisted arguments)
+    extra = {}
+    for tname, tf in transforms.EXTRA.items():
+        try:
+            v, det = verdict(pid, repo_root, tf(repo_root), use_reference=False)
+        except Exception as e:      # noqa: BLE001
+            v, det = "error", str(e)[:100]
+        extra[tname] = v if v == "ok" else f"{v}: {det}"
+        if v != "ok" and tname in transforms.GATED:
+            failures.append(f"whole-repo equivalent variant {tname} changed the verdict of {pid}: {v} {det}")
+    out["whole_repo_rewrites"] = extra
+    out.update(independent_corpora(pid, repo_root, jobs))
+    return out
+
+
+def _independent(args):
+    corpus, cid, pid, repo_root = args
+    from .patchapply import apply_patch
+    base = os.path.join(os.path.dirname(os.path.dirname(HERE)), corpus, cid)
+    with open(os.path.join(base, "patch.diff"), encoding="utf-8") as fh:
+        ov = apply_patch(repo_root, fh.read())
+    if ov is None:
+        return corpus, cid, "stale", "patch no longer applies"
+    v, det = verdict(pid, repo_root, ov)
+    return corpus, cid, v, det
+
+
+def independent_corpora(pid, repo_root, jobs=None):
+    """measurements (never verdicts) on the two independently produced corpora kept under /verif: the seeded regressions of
+    this property (should be reported) and the behaviour-preserving refactorings anchored in it (should stay silent)"""
+    root = os.path.dirname(os.path.dirname(HERE))
+    tasks = []
+    for corpus in ("seeded", "benign"):
+        d = os.path.join(root, corpus)
+        if not os.path.isdir(d):
+            continue
+        for cid in sorted(os.listdir(d)):
+            mp = os.path.join(d, cid, "meta.json")
+            if os.path.isfile(mp):
+                try:
+                    prop = json.load(open(mp)).get("property")
+                except Exception:     # noqa: BLE001
+                    continue
+                if prop == pid:
+                    tasks.append((corpus, cid, pid, repo_root))
+    if not tasks:
+        return {}
+    with ProcessPoolExecutor(max_workers=jobs or min(16, os.cpu_count() or 4)) as ex:
+        res = list(ex.map(_independent, tasks))
+    seeds = [(c, v, d) for k, c, v, d in res if k == "seeded"]
+    ben = [(c, v, d) for k, c, v, d in res if k == "benign"]
+    return {"seeded_regressions": {"total": len(seeds), "reported": sum(1 for c, v, d in seeds if v == "violation"),
+                                   "not_reported": {c: f"{v}: {d}" for c, v, d in seeds if v != "violation"}},
+            "benign_refactorings": {"total": len(ben), "silent": sum(1 for c, v, d in ben if v == "ok"),
+                                    "false_alarm": {c: d for c, v, d in ben if v == "violation"},
+                                    "unrecognised_form": {c: d for c, v, d in ben if v == "error"}}}
 
 
 def main(argv):
